@@ -85,7 +85,10 @@ CLAIMED = {
               "last work day's midnight + share booked up to and including it, when every clock reading lies on a day before the project start day "
               "(finding KF-S6-C08 for a clock on the start day); C08_order - leaves that take part in no dependency get capacity in WBS order (full). "
               "Both full statements have kernel-checked counterexamples (C08_*_full_fails) replayed on the implementation. The last clause (dates do "
-              "not change when unrelated tasks are removed, balancing off) has no theorem and rests on the correspondence stream's removal pairs. "
+              "not change when unrelated tasks are removed, balancing off): C08_removal_free_partial - the dates, estimate, spent and (day, units) "
+              "rows of a leaf that takes part in no dependency are a function of its own data, its calendar, the project start, the (constant) "
+              "clock and the default estimate, hence equal in any two WBSs that agree on those; for tasks with prerequisites (whose dates depend "
+              "on them) the clause rests on the correspondence stream's removal pairs. "
               + SCHED_TIE),
         design='6 (C08)', technique='Lean 4 proof (fill-loop tightness + ledger monotonicity) of partial statements + counterexamples + differential correspondence'),
     'C09': dict(
